@@ -280,6 +280,16 @@ theorem checkStructural_iff (g : Named.NGraph) (hw : Named.WfG g) :
        Named.ScopedG [] g) :=
   ⟨checkStructural_sound g, fun h => checkStructural_complete g h.1 h.2.1 h.2.2 hw⟩
 
+/-- the program the driver runs next to the checker on every real graph decides `WfG`; with
+    `checkStructural_iff`: where it answers `true`, the checker's verdict IS the declarative statement -/
+theorem wf_decided (g : Named.NGraph) : Named.wfB g = true ↔ Named.WfG g := Named.wfB_iff g
+
+theorem checkStructural_exact (g : Named.NGraph) (hw : Named.wfB g = true) :
+    Named.checkStructural g = true ↔
+      ((Named.valueNames (Named.defsG g)).Nodup ∧ (Named.nodeNames (Named.defsG g)).Nodup ∧
+       Named.ScopedG [] g) :=
+  checkStructural_iff g ((wf_decided g).mp hw)
+
 open Generated.BuildFlags BuildIR in
 /-- Obligation tying the theorem to the source: with the parameters `build` passes, every path of
     `Graph.to_onnx_model` that returns, returns the variable that was the argument of the last
